@@ -90,12 +90,87 @@ def octets_kept_as_received(ctx, report, RULE='C06.R11', prefix='cryptoparser/tl
     report.count(RULE, n)
     report.floor(RULE, 60, 'parse functions of the TLS modules')
 
+
+def optional_trailers_read(ctx, report, RULE='C06.R13', title=None):
+    """An optional trailing block (the extensions of a hello) is there when anything is left of the enclosing body.  A parse
+    function that leaves quietly - ``return`` without a value or with ``None`` - when what is left is *at most* some positive
+    number of octets drops a short but well-formed block (an extension block holding one empty extension is six octets) and
+    leaves its octets unread.  Reported in every function whose name contains ``parse``: an ``if`` over ``unparsed_length`` or
+    ``len(...) - parsed_length`` compared with ``<`` / ``<=`` against a positive constant (literals, arithmetic of literals, locals
+    bound to those) whose body returns nothing instead of raising."""
+    report.rule(RULE, title or 'optional trailing blocks are read whenever anything is left: no quiet return while a positive number of octets is unread')
+
+    def const(e, env):
+        if isinstance(e, ast.Constant) and isinstance(e.value, int) and not isinstance(e.value, bool):
+            return e.value
+        if isinstance(e, ast.Name) and e.id in env:
+            return env[e.id]
+        if isinstance(e, ast.BinOp) and isinstance(e.op, (ast.Add, ast.Sub, ast.Mult)):
+            a, b = const(e.left, env), const(e.right, env)
+            if a is not None and b is not None:
+                return a + b if isinstance(e.op, ast.Add) else a - b if isinstance(e.op, ast.Sub) else a * b
+        return None
+
+    def is_left(e):
+        t = ast.unparse(e)
+        if t.endswith('.unparsed_length') and isinstance(e, ast.Attribute):
+            return True
+        return isinstance(e, ast.BinOp) and isinstance(e.op, ast.Sub) and ast.unparse(e.left).startswith('len(') and ast.unparse(e.right).endswith('.parsed_length')
+
+    def findings(fnode):
+        env = {}
+        for st in ast.walk(fnode):
+            if isinstance(st, ast.Assign) and len(st.targets) == 1 and isinstance(st.targets[0], ast.Name):
+                v = const(st.value, env)
+                if v is not None:
+                    env[st.targets[0].id] = v
+        out = []
+        for x in ast.walk(fnode):
+            if not (isinstance(x, ast.If) and isinstance(x.test, ast.Compare) and len(x.test.ops) == 1):
+                continue
+            l, op, r = x.test.left, x.test.ops[0], x.test.comparators[0]
+            bound = None
+            if is_left(l) and isinstance(op, (ast.Lt, ast.LtE)):
+                k = const(r, env)
+                bound = None if k is None else (k - 1 if isinstance(op, ast.Lt) else k)
+            elif is_left(r) and isinstance(op, (ast.Gt, ast.GtE)):
+                k = const(l, env)
+                bound = None if k is None else (k - 1 if isinstance(op, ast.Gt) else k)
+            if bound is None or bound <= 0:
+                continue
+            quiet = any(isinstance(y, ast.Return) and (y.value is None or (isinstance(y.value, ast.Constant) and y.value.value is None)) for y in x.body) and \
+                not any(isinstance(y, ast.Raise) for y in ast.walk(ast.Module(body=x.body, type_ignores=[])))
+            if quiet:
+                out.append((ast.unparse(x.test)[:80], bound))
+        return out
+    good = "def _parse_x(cls, p, parser):\n    if parser.parsed_length >= len(p['payload']):\n        return None\n    parser.parse_parsable('e', E)\n"
+    bad = "def _parse_x(cls, p, parser):\n    k = 2 + 4\n    if len(p['payload']) - parser.parsed_length <= k:\n        return None\n    parser.parse_parsable('e', E)\n"
+    if findings(ast.parse(good).body[0]) or not findings(ast.parse(bad).body[0]):
+        report.error('%s: the rule does not recognise its own samples' % RULE)
+        return
+    n = 0
+    for f in ctx.model.functions():
+        if f.module.external or 'parse' not in f.name:
+            continue
+        n += 1
+        for test, bound in findings(f.node):
+            report.add(RULE, '%s@quiet-return[%s]' % (f.construct, test[:40]),
+                       'the function returns without a result while up to %d octet(s) are unread (%s): a block that short is dropped and its octets are left over' % (bound, test))
+    report.count(RULE, n)
+    report.floor(RULE, 200, 'parse functions')
+
 def check(ctx, report):
     with open(os.path.join(HERE, 'reviewed.json')) as f:
         reviewed = json.load(f).get('C06', {})
     speccheck.run(ctx, report, 'C06', 'tls.json', MODULES, reviewed)
     ssl2_header(ctx, report)
     octets_kept_as_received(ctx, report)
+    optional_trailers_read(ctx, report)
+    # unknown and GREASE code points of vectors are kept behind the wrapper classes: the wrapper can be built for every integer of
+    # the width, and is GREASE exactly for the RFC 8701 values (tabulation shared with C10.R6)
+    report.rule('C06.R12', 'code point wrappers of the vector fallbacks: built for every code of the width, GREASE exactly for the RFC 8701 values')
+    from .c10 import grease_classification
+    grease_classification(ctx, report, 'C06.R12')
     from .. import rejections
     rejections.check(ctx, report, 'C06.R6', 'tls')
     from .c10 import variant_order
